@@ -316,7 +316,7 @@ func TestC36(t *testing.T) {
 				if a.panic != "" {
 					continue // crashes on its own: C10's subject, nothing to compare
 				}
-				if !r.out.equal(a, pool[r.stmt].PlanOnly) {
+				if !r.out.equal(a, pool[r.stmt].PlanOnly || pool[r.stmt].Volatile) {
 					bad = append(bad, fmt.Sprintf("session %d: %s\n      concurrently: %s\n      alone:        %s", i, pool[r.stmt].SQL, r.out, a))
 				}
 			}
